@@ -2,6 +2,7 @@ package rules
 
 import (
 	"fmt"
+	"go/constant"
 	"go/token"
 	"go/types"
 	"strings"
@@ -15,9 +16,9 @@ import (
 
 func init() {
 	register(&Check{ID: "C06", Run: runC06, Expl: oblig.Explanation{
-		Text: "Static request/response pairing check. (R1) (*Conn).waitResponse consumes the response header and returns the read lock only on the id == rid edge; every other exit of an iteration unlocks rlock; the id compared is the one doRequest returned, which is the value written on the wire under wlock. (R2) the read lock handed out by waitResponse is released exactly once on every path by each taker (do, ApiVersions, ReadBatchWith→Batch.close which clears the field first). (R3) the correlation id is incremented, copied and used for the write inside one wlock critical section. (R5) protocol.RoundTrip returns the response only on the id == correlationID edge; ids come from an atomic counter. (R6) Transport: a conn is released to the idle pool only after an exchange that completed (or wrote nothing), its protocol.Conn is closed on exit of its loop, requests are sent only on conns just taken from the pool/created, taken conns are removed from the idle list under the group mutex, and every request gets its own fresh buffered (cap 1) result channel. Not decided: absence of cross-talk under every interleaving, half-read responses after deadlines.",
-		Rule: "one obligation per pairing fact; non-trivial = a path/dominance query over SSA was evaluated",
-		Trusted: []string{"go/ssa", "must-lockset (internal/an/lockset.go)"},
+		Text:        "Static request/response pairing check. (R1) (*Conn).waitResponse consumes the response header and returns the read lock only on the id == rid edge; every other exit of an iteration unlocks rlock; the id compared is the one doRequest returned, which is the value written on the wire under wlock. (R2) the read lock handed out by waitResponse is released exactly once on every path by each taker (do, ApiVersions, ReadBatchWith→Batch.close which clears the field first). (R3) the correlation id is incremented, copied and used for the write inside one wlock critical section. (R5) protocol.RoundTrip returns the response only on the id == correlationID edge; ids come from an atomic counter. (R6) Transport: a conn is released to the idle pool only after an exchange that completed (or wrote nothing), its protocol.Conn is closed on exit of its loop, requests are sent only on conns just taken from the pool/created, taken conns are removed from the idle list under the group mutex, and every request gets its own fresh buffered (cap 1) result channel. Not decided: absence of cross-talk under every interleaving, half-read responses after deadlines.",
+		Rule:        "one obligation per pairing fact; non-trivial = a path/dominance query over SSA was evaluated",
+		Trusted:     []string{"go/ssa", "must-lockset (internal/an/lockset.go)"},
 		Assumptions: []string{"brokers answer each connection's requests with the correlation id they carried"},
 	}})
 }
@@ -41,7 +42,7 @@ func isMutexOp(ins ssa.Instruction, lockField string, unlock bool) bool {
 	if f == nil || f.Signature.Recv() == nil || !an.NamedIs(f.Signature.Recv().Type(), "sync", "Mutex") {
 		return false
 	}
-	if (f.Name() == "Unlock") != unlock || (f.Name() != "Lock" && f.Name() != "Unlock") {
+	if (an.RefFuncName(f) == "Unlock") != unlock || (an.RefFuncName(f) != "Lock" && an.RefFuncName(f) != "Unlock") {
 		return false
 	}
 	if lockField == "" {
@@ -61,7 +62,7 @@ func c06WaitResponse(p *load.Program, r *oblig.Report) {
 	pos := p.Pos(fn.Pos())
 	// the id == rid comparison
 	var eq *ssa.BasicBlock
-	for _, b := range fn.Blocks {
+	for _, b := range an.Blocks(fn) {
 		_, ci := an.IfCond(b)
 		if ci == nil || ci.Op != token.EQL {
 			continue
@@ -80,7 +81,7 @@ func c06WaitResponse(p *load.Program, r *oblig.Report) {
 	okSkip, nSkip := true, 0
 	an.EachInstr(fn, func(ins ssa.Instruction) {
 		call, ok := ins.(*ssa.Call)
-		if !ok || call.Call.StaticCallee() == nil || call.Call.StaticCallee().Name() != "skipResponseSizeAndID" {
+		if !ok || call.Call.StaticCallee() == nil || an.RefFuncName(call.Call.StaticCallee()) != "skipResponseSizeAndID" {
 			return
 		}
 		nSkip++
@@ -188,11 +189,11 @@ func c06LockHandoff(p *load.Program, r *oblig.Report) {
 			pass := func(i ssa.Instruction) bool {
 				switch x := i.(type) {
 				case *ssa.Call:
-					if f := x.Call.StaticCallee(); f != nil && f.Name() == "Unlock" && len(x.Call.Args) > 0 && x.Call.Args[0] == lockVal {
+					if f := x.Call.StaticCallee(); f != nil && an.RefFuncName(f) == "Unlock" && len(x.Call.Args) > 0 && x.Call.Args[0] == lockVal {
 						return true
 					}
 				case *ssa.Defer:
-					if f := x.Call.StaticCallee(); f != nil && f.Name() == "Unlock" && len(x.Call.Args) > 0 && x.Call.Args[0] == lockVal {
+					if f := x.Call.StaticCallee(); f != nil && an.RefFuncName(f) == "Unlock" && len(x.Call.Args) > 0 && x.Call.Args[0] == lockVal {
 						return true
 					}
 				case *ssa.Store:
@@ -214,7 +215,7 @@ func c06LockHandoff(p *load.Program, r *oblig.Report) {
 			var unlocks []ssa.Instruction
 			an.EachInstr(fn, func(i ssa.Instruction) {
 				if c2, ok := i.(*ssa.Call); ok {
-					if f := c2.Call.StaticCallee(); f != nil && f.Name() == "Unlock" && len(c2.Call.Args) > 0 && c2.Call.Args[0] == lockVal {
+					if f := c2.Call.StaticCallee(); f != nil && an.RefFuncName(f) == "Unlock" && len(c2.Call.Args) > 0 && c2.Call.Args[0] == lockVal {
 						unlocks = append(unlocks, i)
 					}
 				}
@@ -253,7 +254,7 @@ func c06LockHandoff(p *load.Program, r *oblig.Report) {
 			}
 		}
 		if c2, ok := ins.(*ssa.Call); ok {
-			if f := c2.Call.StaticCallee(); f != nil && f.Name() == "Unlock" && strings.HasSuffix(argDesc(c2.Call.Args[0]), ".lock") {
+			if f := c2.Call.StaticCallee(); f != nil && an.RefFuncName(f) == "Unlock" && strings.HasSuffix(argDesc(c2.Call.Args[0]), ".lock") {
 				unlockCall = ins
 				for _, pred := range ins.Block().Preds {
 					_, ci := an.IfCond(pred)
@@ -332,7 +333,7 @@ func c06CorrelationID(p *load.Program, r *oblig.Report) {
 	var idArg ssa.Value
 	an.EachInstr(fn, func(ins ssa.Instruction) {
 		if call, ok := ins.(*ssa.Call); ok && !call.Call.IsInvoke() && call.Call.StaticCallee() == nil {
-			if prm, ok := call.Call.Value.(*ssa.Parameter); ok && prm.Name() == "write" && len(call.Call.Args) == 2 {
+			if prm, ok := call.Call.Value.(*ssa.Parameter); ok && an.ParamName(prm) == "write" && len(call.Call.Args) == 2 {
 				idArg = call.Call.Args[1]
 			}
 		}
@@ -361,7 +362,7 @@ func c06RoundTrip(p *load.Program, r *oblig.Report) {
 	}
 	pos := p.Pos(fn.Pos())
 	var cmp *ssa.BasicBlock
-	for _, b := range fn.Blocks {
+	for _, b := range an.Blocks(fn) {
 		_, ci := an.IfCond(b)
 		if ci == nil || (ci.Op != token.NEQ && ci.Op != token.EQL) {
 			continue
@@ -404,13 +405,43 @@ func c06RoundTrip(p *load.Program, r *oblig.Report) {
 	okAtomic := false
 	an.EachInstr(crt, func(ins ssa.Instruction) {
 		if call, ok := ins.(*ssa.Call); ok {
-			if f := call.Call.StaticCallee(); f != nil && f.Name() == "RoundTrip" && f.Signature.Recv() == nil {
+			if f := call.Call.StaticCallee(); f != nil && an.RefFuncName(f) == "RoundTrip" && f.Signature.Recv() == nil {
 				d := argDesc(call.Call.Args[2])
 				okAtomic = strings.Contains(d, "sync/atomic.AddInt32")
 			}
 		}
 	})
 	r.Check(okAtomic, rule, "protocol.(*Conn).RoundTrip → correlation ids come from an atomic counter", p.Pos(crt.Pos()), "atomic.AddInt32(&c.idgen, +1)", "other source")
+}
+
+// exchangeFunction finds the call of (*conn).roundTrip made by run or by a helper run calls directly.
+func exchangeFunction(p *load.Program, run *ssa.Function) (*ssa.Function, *ssa.Call) {
+	find := func(fn *ssa.Function) *ssa.Call {
+		var rt *ssa.Call
+		an.EachInstr(fn, func(ins ssa.Instruction) {
+			if call, ok := ins.(*ssa.Call); ok {
+				if f := call.Call.StaticCallee(); f != nil && an.RefFuncName(f) == "roundTrip" && f.Signature.Recv() != nil {
+					rt = call
+				}
+			}
+		})
+		return rt
+	}
+	if rt := find(run); rt != nil {
+		return run, rt
+	}
+	var F *ssa.Function
+	var rt *ssa.Call
+	an.EachInstr(run, func(ins ssa.Instruction) {
+		if call, ok := ins.(*ssa.Call); ok {
+			if f := call.Call.StaticCallee(); f != nil && load.InModule(f) && f.Blocks != nil {
+				if c := find(f); c != nil {
+					F, rt = f, c
+				}
+			}
+		}
+	})
+	return F, rt
 }
 
 func c06Transport(p *load.Program, r *oblig.Report) {
@@ -422,17 +453,11 @@ func c06Transport(p *load.Program, r *oblig.Report) {
 		return
 	}
 	pos := p.Pos(run.Pos())
-	// (a) after a failed round trip, releaseConn is reachable only through the ErrNoRecord exemption
-	var rt *ssa.Call
-	an.EachInstr(run, func(ins ssa.Instruction) {
-		if call, ok := ins.(*ssa.Call); ok {
-			if f := call.Call.StaticCallee(); f != nil && f.Name() == "roundTrip" {
-				rt = call
-			}
-		}
-	})
+	// (a) after a failed round trip, releaseConn is reachable only through the ErrNoRecord exemption. The exchange
+	// may live in run itself or in a helper run calls for each request: F is the function holding the call.
+	F, rt := exchangeFunction(p, run)
 	if rt == nil {
-		r.Bad(rule, "(*conn).run → round trip call", pos, "c.roundTrip(...)", "not found")
+		r.Bad(rule, "(*conn).run → round trip call", pos, "c.roundTrip(...) in run or in a helper it calls", "not found")
 	} else {
 		var errVal ssa.Value
 		for _, ref := range *rt.Referrers() {
@@ -443,48 +468,47 @@ func c06Transport(p *load.Program, r *oblig.Report) {
 		// on the err != nil edge: every path to releaseConn passes through a test errors.Is(err, ErrNoRecord) == true
 		edge := an.NilEdge(func(v ssa.Value) bool { return v == errVal }, true)
 		var isNoRecord *ssa.BasicBlock
-		for _, b := range run.Blocks {
+		for _, b := range an.Blocks(F) {
 			iff, _ := an.IfCond(b)
 			if iff == nil {
 				continue
 			}
-			cond := iff.Cond
+			cond := an.CondOf(iff)
 			if u, ok := cond.(*ssa.UnOp); ok && u.Op == token.NOT {
 				cond = u.X
 			}
 			if c2, ok := cond.(*ssa.Call); ok {
-				if f := c2.Call.StaticCallee(); f != nil && f.Name() == "Is" && isErrNoRecord(p, c2.Call.Args[1]) {
+				if f := c2.Call.StaticCallee(); f != nil && an.RefFuncName(f) == "Is" && isErrNoRecord(p, c2.Call.Args[1]) {
 					isNoRecord = b
 				}
 			}
 		}
-		q := an.PathQuery{Fn: run, Edge: func(from *ssa.BasicBlock, si int) bool {
+		failEdge := func(from *ssa.BasicBlock, si int) bool {
 			if !edge(from, si) {
 				return false
 			}
 			if from == isNoRecord {
 				// follow only the "is not ErrNoRecord" edge: with `if !errors.Is(...) { break }` that is Succs[0]
 				iff, _ := an.IfCond(from)
-				_, neg := iff.Cond.(*ssa.UnOp)
+				_, neg := an.CondOf(iff).(*ssa.UnOp)
 				if neg {
 					return si == 0
 				}
 				return si == 1
 			}
 			return true
-		}, Stop: func(i ssa.Instruction) bool {
-			// the next iteration starts at the receive from reqs
-			if u, ok := i.(*ssa.UnOp); ok && u.Op == token.ARROW {
-				return true
-			}
-			return false
-		}, Target: func(i ssa.Instruction) bool {
+		}
+		isReceive := func(i ssa.Instruction) bool {
+			u, ok := i.(*ssa.UnOp)
+			return ok && u.Op == token.ARROW
+		}
+		q := an.PathQuery{Fn: F, Edge: failEdge, Stop: isReceive, Target: func(i ssa.Instruction) bool {
 			c2, ok := i.(*ssa.Call)
 			return ok && an.StaticCalleeIs(&c2.Call, release)
 		}}
 		// start right after the error test: find the If on errVal
 		var start *ssa.BasicBlock
-		for _, b := range run.Blocks {
+		for _, b := range an.Blocks(F) {
 			_, ci := an.IfCond(b)
 			if ci != nil && ci.X == errVal && an.IsNilConst(ci.Y) {
 				if ci.Op == token.NEQ {
@@ -498,14 +522,73 @@ func c06Transport(p *load.Program, r *oblig.Report) {
 			r.Undecided(rule, "(*conn).run → failed exchanges", pos, "error test or ErrNoRecord exemption not recognised")
 		} else {
 			hit := q.ReachableFrom(an.Point{B: start, Idx: -1})
-			r.Check(hit == nil, rule, "(*conn).run → a connection is not returned to the idle pool after a failed exchange", pos, "releaseConn unreachable from err != nil unless the error is ErrNoRecord (nothing was written)", "releaseConn reachable on the failure path")
+			okLeave := true
+			why := "releaseConn reachable on the failure path"
+			if F == run {
+				// the failure path must also leave the loop: the next receive is unreachable
+				q2 := an.PathQuery{Fn: run, Edge: failEdge, Target: isReceive}
+				if q2.ReachableFrom(an.Point{B: start, Idx: -1}) != nil {
+					okLeave = false
+					why = "the loop continues with the next request after a failed exchange"
+				}
+			} else {
+				// the helper reports failure as `false` on every exit of the failure path, and run leaves the loop on false
+				q3 := an.PathQuery{Fn: F, Edge: failEdge, Target: func(i ssa.Instruction) bool {
+					ret, ok := i.(*ssa.Return)
+					if !ok {
+						return false
+					}
+					if len(ret.Results) != 1 {
+						return true
+					}
+					c, isC := ret.Results[0].(*ssa.Const)
+					return !isC || c.Value == nil || constant.BoolVal(c.Value)
+				}}
+				if bad := q3.ReachableFrom(an.Point{B: start, Idx: -1}); bad != nil {
+					okLeave = false
+					why = "the helper does not report the failed exchange to run (return at " + p.Pos(bad.Pos()) + ")"
+				}
+				okCaller := false
+				an.EachInstr(run, func(ins ssa.Instruction) {
+					call, ok := ins.(*ssa.Call)
+					if !ok || !an.StaticCalleeIs(&call.Call, F) {
+						return
+					}
+					for _, b := range an.Blocks(run) {
+						iff, _ := an.IfCond(b)
+						if iff == nil {
+							continue
+						}
+						cond, falseIdx := an.CondOf(iff), 1
+						if u, isU := cond.(*ssa.UnOp); isU && u.Op == token.NOT {
+							cond, falseIdx = u.X, 0
+						}
+						if cond != ssa.Value(call) {
+							continue
+						}
+						q4 := an.PathQuery{Fn: run, Target: isReceive}
+						okCaller = q4.ReachableFrom(an.Point{B: b.Succs[falseIdx], Idx: -1}) == nil
+					}
+				})
+				if !okCaller {
+					okLeave = false
+					why = "run does not leave the loop when the helper reports a failed exchange"
+				}
+			}
+			if hit == nil && !okLeave {
+				hit = rt
+			}
+			if hit == nil {
+				why = ""
+			}
+			r.Check(hit == nil, rule, "(*conn).run → a connection is not returned to the idle pool after a failed exchange", pos, "releaseConn unreachable from err != nil unless the error is ErrNoRecord (nothing was written); the loop is left", why)
 		}
 	}
 	// (b) pc.Close() deferred
 	okClose := false
 	an.EachInstr(run, func(ins ssa.Instruction) {
 		if d, ok := ins.(*ssa.Defer); ok {
-			if f := d.Call.StaticCallee(); f != nil && f.Name() == "Close" && an.NamedIs(f.Signature.Recv().Type(), protoPath, "Conn") {
+			if f := d.Call.StaticCallee(); f != nil && an.RefFuncName(f) == "Close" && an.NamedIs(f.Signature.Recv().Type(), protoPath, "Conn") {
 				okClose = true
 			}
 		}
